@@ -39,6 +39,25 @@ def InFatRange (c : Civil) : Prop :=
 /-- two-second resolution -/
 def floor2s (c : Civil) : Civil := { c with second := c.second / 2 * 2 }
 
+/-! ### the three timestamps of a FAT directory entry (what Chtimes sets) -/
+
+structure EntryTimes where
+  create : Civil
+  modify : Civil
+  access : Civil
+deriving Repr, DecidableEq
+
+/-- directoryEntry.toBytes: create date + time, modify date + time, and the access *date* only -/
+def fatTimesEnc (t : EntryTimes) : Nat × Nat × Nat × Nat × Nat :=
+  ((fatPack t.create).1, (fatPack t.create).2, (fatPack t.modify).1, (fatPack t.modify).2, (fatPack t.access).1)
+
+/-- parseDirEntries: the access time is `dateTimeToTime(accessDate, 0)` -/
+def fatTimesDec (w : Nat × Nat × Nat × Nat × Nat) : EntryTimes :=
+  ⟨fatUnpack w.1 w.2.1, fatUnpack w.2.2.1 w.2.2.2.1, fatUnpack w.2.2.2.2 0⟩
+
+/-- a date at midnight -/
+def dateOnly (c : Civil) : Civil := { c with hour := 0, minute := 0, second := 0 }
+
 /-! ### FAT attribute byte -/
 
 structure FatAttr where
